@@ -1,1 +1,8 @@
+//! usim — shared simulation infrastructure (PRNG, simulated physical memory, independent page
+//! walker, instruction decoder, simulated CPU state, the synchronous-signal seam).
+pub mod cpu;
+pub mod decode;
+pub mod hwwalk;
+pub mod physmem;
 pub mod prng;
+pub mod world;
